@@ -150,8 +150,11 @@ def selftest(tier):
     print("selftest C05: model fault reader_sub3 -> TLC reports %s: %s" % (sorted(ex.violated), "detected" if hit else "NOT detected"))
     ok &= bool(hit)
 
+    mark = {}
+
     def tamper(n, rec):
-        if n == 11:
+        if n >= 11 and "n" not in mark and rec["msgs"][0]["name"] != "?":
+            mark["n"] = n
             rec["msgs"][0]["encLen"] -= 1
         return rec
     ex = F.explore(wd, PROP, "c05", "quick", ["vanilla"], tag="st")
@@ -161,8 +164,8 @@ def selftest(tier):
     lines = open(recs).readlines()[:200]
     open(recs, "w").writelines(lines)
     verdicts, totals = F.run_replay(binary, SUB, recs, F.make_keys(4, PROP), jobs=2)
-    hit = [x for x in verdicts if x.get("id") == "st:11" and x.get("verdict") in ("differs", "enc_state")]
-    print("selftest C05: keystream range of model record 11 shortened by one byte -> %s" % ("detected" if hit else "NOT detected"))
+    hit = [x for x in verdicts if x.get("id") == "st:%s" % mark.get("n") and x.get("verdict") in ("differs", "enc_state")]
+    print("selftest C05: keystream range of model record %s shortened by one byte -> %s" % (mark.get("n"), "detected" if hit else "NOT detected"))
     ok &= bool(hit)
 
     st, tr, caps, _ = F.lemma(wd, PROP, 100, 1)
